@@ -1,7 +1,273 @@
-(** C18 placeholder while the pipeline is brought up; replaced by the real theorems. *)
-From Coq Require Import ZArith List Bool.
-From Low Require Import Model.SectionWriter.
+(** C18 -- SectionWriter confines and accounts for every byte across any call sequence.
+
+    Only the property theorems (each closed by [exact]), their axiom audit and
+    non-vacuity examples.
+
+    Model ([Model/SectionWriter.v]): the concrete [(base, off, limit)] state in
+    int64 with every addition/subtraction wrapped ([i64]); [run s sc cs] is the
+    list of per-call results (return values, calls [(absolute offset, bytes)]
+    that reached the underlying writer) of the call sequence [cs] when the
+    underlying [io.WriterAt] answers with the response script [sc] -- a response
+    [(k, e)] accepts [min k len(p)] bytes and returns error class [e]
+    (0 = nil); an exhausted script accepts everything.  Every theorem
+    quantifies over all scripts ([script_ok]: counts are >= 0) and over all
+    call sequences ([call_ok]: Seek/WriteAt offsets are int64 values).
+
+    Spec ([Spec/SectionWriterSpec.v]): a section-relative cursor [pos >= 0] and a
+    length [n], in unbounded integers: [spec_section o n sc cs].
+
+    [reachable o n s]: [s] is the state of [NewSectionWriter(w, o, n)] after some
+    call sequence over some underlying writer.  The cursor of a reachable
+    state, relative to the section, is [off s - o].
+
+    Error classes: 0 nil, 1 io.ErrShortWrite, 3 errWhence, 4 errOffset, any
+    other value: the underlying writer's own error. *)
+From Coq Require Import ZArith List Bool Lia.
+From Low Require Import Lib.MachInt Lib.BitSeq Model.SectionWriter Spec.SectionWriterSpec Run.C18
+  Proofs.SectionWriterProofs Proofs.SectionWriterCalls.
+Import ListNotations.
 Open Scope Z_scope.
-Theorem C18_size_partial : forall o, Size (mkSW o o o) = 0 -> True.
-Proof. exact (fun _ _ => I). Qed.
-Print Assumptions C18_size_partial.
+
+(** ** Refinement: for every section, call sequence and faulty writer, the
+    return values of every call and the (absolute offset, bytes) of every call
+    that reaches the underlying writer are those of the cursor/length machine. *)
+Theorem C18_refinement : forall o n sc cs,
+  0 <= o /\ 0 <= n /\ o + n <= 2^63 - 1 ->
+  Forall (fun r => 0 <= fst r) sc ->
+  Forall call_ok cs ->
+  map (fun r => (rets r, ucalls r)) (run (NewSectionWriter o n) sc cs)
+  = spec_section o n sc (map to_acall cs).
+Proof. exact section_refines. Qed.
+Print Assumptions C18_refinement.
+
+(** AtToWriter(w, o) behaves as a section from o with no practical end
+    (length 2^63-1-o) ... *)
+Theorem C18_at_to_writer : forall o sc cs,
+  0 <= o <= 2^63 - 1 ->
+  Forall (fun r => 0 <= fst r) sc ->
+  Forall call_ok cs ->
+  map (fun r => (rets r, ucalls r)) (run (AtToWriter o) sc cs)
+  = spec_at_to_writer o sc (map to_acall cs).
+Proof. exact at_to_writer_refines. Qed.
+Print Assumptions C18_at_to_writer.
+
+(** ... because it IS that section (the int64 subtraction maxOffset-offset does not wrap) *)
+Theorem C18_at_to_writer_is_section : forall o, 0 <= o <= 2^63 - 1 ->
+  AtToWriter o = NewSectionWriter o (2^63 - 1 - o).
+Proof. exact AtToWriter_section. Qed.
+Print Assumptions C18_at_to_writer_is_section.
+
+(** ** Containment: every call that reaches the underlying writer during a
+    call [c] of the sequence starts inside [o, o+n), ends at or before o+n and
+    carries a prefix ([firstn]) of the buffer the caller passed to [c]
+    ([contained_m], unfolded: forall (a, bs) among the underlying calls of the
+    result, o <= a < o+n /\ a + |bs| <= o+n /\ bs = firstn |bs| p). *)
+Theorem C18_containment : forall o n sc cs,
+  0 <= o /\ 0 <= n /\ o + n <= 2^63 - 1 ->
+  Forall (fun r => 0 <= fst r) sc ->
+  Forall call_ok cs ->
+  Forall2 (fun c r =>
+    forall a bs, In (a, bs) (ucalls r) ->
+      o <= a < o + n /\ a + zlen bs <= o + n /\
+      exists p, call_buf (to_acall c) = Some p /\ bs = firstn (length bs) p)
+    cs (run (NewSectionWriter o n) sc cs).
+Proof. exact section_contained. Qed.
+Print Assumptions C18_containment.
+
+(** ** State invariant: the section never moves and the cursor stays in [o, 2^63-1] *)
+Theorem C18_state_invariant : forall o n s,
+  0 <= o /\ 0 <= n /\ o + n <= 2^63 - 1 -> reachable o n s ->
+  base s = o /\ limit s = o + n /\ o <= off s <= 2^63 - 1.
+Proof. exact reachable_inv. Qed.
+Print Assumptions C18_state_invariant.
+
+(** ** Accounting, Write: from any reachable state (cursor pos = off s - o), either
+    n <= pos: nothing reaches the writer, state and script untouched, (0, ErrShortWrite); or
+    pos < n: exactly one underlying call, at o + pos, with the first m = min(|p|, n - pos)
+    bytes; the count returned is the writer's count cnt (0 <= cnt <= m); the cursor advances
+    by exactly cnt; the error is the writer's if it returned one, else ErrShortWrite iff m < |p|.
+    ([write_accounting] is exactly this disjunction, see Proofs/SectionWriterProofs.v.) *)
+Theorem C18_write_accounting : forall o n s sc p,
+  0 <= o /\ 0 <= n /\ o + n <= 2^63 - 1 -> reachable o n s ->
+  Forall (fun r => 0 <= fst r) sc ->
+  let pos := off s - o in
+  let '(s', sc', r) := Write s sc p in
+  (n <= pos /\ s' = s /\ sc' = sc /\ rets r = [0; E_short] /\ ucalls r = []) \/
+  (pos < n /\
+   let m := Z.min (zlen p) (n - pos) in
+   let bs := firstn (Z.to_nat m) p in
+   let '((cnt, e), rest) := under sc bs in
+   ucalls r = [(o + pos, bs)] /\ sc' = rest /\
+   off s' = off s + cnt /\ base s' = base s /\ limit s' = limit s /\
+   0 <= cnt <= m /\
+   rets r = [cnt; if e =? 0 then (if m <? zlen p then E_short else E_nil) else e]).
+Proof. exact write_accounting_at. Qed.
+Print Assumptions C18_write_accounting.
+
+(** Accounting, WriteAt at section-relative a: the cursor (the whole state) is untouched; either
+    a is outside [0, n): nothing reaches the writer, (0, ErrShortWrite); or exactly one
+    underlying call at o + a with the first min(|p|, n - a) bytes, count and error as for Write. *)
+Theorem C18_writeat_accounting : forall o n s sc p a,
+  0 <= o /\ 0 <= n /\ o + n <= 2^63 - 1 -> reachable o n s ->
+  Forall (fun r => 0 <= fst r) sc -> - 2^63 <= a < 2^63 ->
+  let '(s', sc', r) := WriteAt s sc p a in
+  s' = s /\
+  (((a < 0 \/ n <= a) /\ sc' = sc /\ rets r = [0; E_short] /\ ucalls r = []) \/
+   (0 <= a < n /\
+    let m := Z.min (zlen p) (n - a) in
+    let bs := firstn (Z.to_nat m) p in
+    let '((cnt, e), rest) := under sc bs in
+    ucalls r = [(o + a, bs)] /\ sc' = rest /\ 0 <= cnt <= m /\
+    rets r = [cnt; if e =? 0 then (if m <? zlen p then E_short else E_nil) else e])).
+Proof. exact writeat_accounting_at. Qed.
+Print Assumptions C18_writeat_accounting.
+
+(** ** io.ErrShortWrite is returned exactly when the request is truncated by, or starts at or
+    beyond, the section end -- provided the underlying writer reports no error on this call
+    ([head_err sc = 0]); an error of the underlying writer is what is returned. *)
+Theorem C18_write_error_class : forall o n s sc p,
+  0 <= o /\ 0 <= n /\ o + n <= 2^63 - 1 -> reachable o n s ->
+  Forall (fun r => 0 <= fst r) sc ->
+  let pos := off s - o in
+  let err := ret_err (snd (Write s sc p)) in
+  (head_err sc = 0 ->
+     (err = E_short <-> (n <= pos \/ n - pos < zlen p)) /\
+     (err = E_nil <-> (pos < n /\ zlen p <= n - pos))) /\
+  (pos < n -> head_err sc <> 0 -> err = head_err sc) /\
+  (n <= pos -> err = E_short).
+Proof. exact write_error_class. Qed.
+Print Assumptions C18_write_error_class.
+
+Theorem C18_writeat_error_class : forall o n s sc p a,
+  0 <= o /\ 0 <= n /\ o + n <= 2^63 - 1 -> reachable o n s ->
+  Forall (fun r => 0 <= fst r) sc -> - 2^63 <= a < 2^63 ->
+  let err := ret_err (snd (WriteAt s sc p a)) in
+  (head_err sc = 0 ->
+     (err = E_short <-> (a < 0 \/ n <= a \/ n - a < zlen p)) /\
+     (err = E_nil <-> (0 <= a < n /\ zlen p <= n - a))) /\
+  (0 <= a < n -> head_err sc <> 0 -> err = head_err sc) /\
+  (a < 0 \/ n <= a -> err = E_short).
+Proof. exact writeat_error_class. Qed.
+Print Assumptions C18_writeat_error_class.
+
+(** ** Seek follows io.Seeker relative to the section.  In unbounded arithmetic, with the
+    absolute reference r (o for SeekStart, the cursor for SeekCurrent, o+n for SeekEnd) and
+    target r + d: an invalid whence is rejected; a target before the section start is
+    rejected; a target beyond 2^63-1 is rejected (this is what the int64 wrap of the Go
+    addition does); otherwise the cursor becomes r + d and r + d - o is returned.  A rejected
+    Seek leaves the state untouched; no Seek reaches the underlying writer. *)
+Theorem C18_seek : forall o n s d wh,
+  0 <= o /\ 0 <= n /\ o + n <= 2^63 - 1 -> reachable o n s -> - 2^63 <= d < 2^63 ->
+  Seek s d wh =
+  match (if wh =? 0 then Some o else if wh =? 1 then Some (off s)
+         else if wh =? 2 then Some (o + n) else None) with
+  | None => (s, mkOut [0; E_whence] [])
+  | Some r =>
+      if (r + d <? o) || (r + d >? 2^63 - 1) then (s, mkOut [0; E_offset] [])
+      else (mkSW o (r + d) (o + n), mkOut [r + d - o; E_nil] [])
+  end.
+Proof. exact seek_spec. Qed.
+Print Assumptions C18_seek.
+
+Theorem C18_seek_invalid_whence : forall o n s d wh,
+  0 <= o /\ 0 <= n /\ o + n <= 2^63 - 1 -> reachable o n s -> - 2^63 <= d < 2^63 ->
+  wh <> 0 -> wh <> 1 -> wh <> 2 ->
+  Seek s d wh = (s, mkOut [0; E_whence] []).
+Proof. exact seek_invalid_whence. Qed.
+Print Assumptions C18_seek_invalid_whence.
+
+Theorem C18_seek_before_start : forall o n s d wh r,
+  0 <= o /\ 0 <= n /\ o + n <= 2^63 - 1 -> reachable o n s -> - 2^63 <= d < 2^63 ->
+  (wh = 0 /\ r = o) \/ (wh = 1 /\ r = off s) \/ (wh = 2 /\ r = o + n) ->
+  r + d < o ->
+  Seek s d wh = (s, mkOut [0; E_offset] []).
+Proof. exact seek_before_start. Qed.
+Print Assumptions C18_seek_before_start.
+
+Theorem C18_seek_int64_wrap : forall o n s d wh r,
+  0 <= o /\ 0 <= n /\ o + n <= 2^63 - 1 -> reachable o n s -> - 2^63 <= d < 2^63 ->
+  (wh = 0 /\ r = o) \/ (wh = 1 /\ r = off s) \/ (wh = 2 /\ r = o + n) ->
+  r + d > 2^63 - 1 ->
+  Seek s d wh = (s, mkOut [0; E_offset] []).
+Proof. exact seek_int64_wrap. Qed.
+Print Assumptions C18_seek_int64_wrap.
+
+Theorem C18_seek_ok : forall o n s d wh r,
+  0 <= o /\ 0 <= n /\ o + n <= 2^63 - 1 -> reachable o n s -> - 2^63 <= d < 2^63 ->
+  (wh = 0 /\ r = o) \/ (wh = 1 /\ r = off s) \/ (wh = 2 /\ r = o + n) ->
+  o <= r + d <= 2^63 - 1 ->
+  Seek s d wh = (mkSW o (r + d) (o + n), mkOut [r + d - o; E_nil] []) /\
+  reachable o n (mkSW o (r + d) (o + n)).
+Proof. exact seek_ok. Qed.
+Print Assumptions C18_seek_ok.
+
+(** ** Size returns n, whatever happened before *)
+Theorem C18_size : forall o n s,
+  0 <= o /\ 0 <= n /\ o + n <= 2^63 - 1 -> reachable o n s -> Size s = n.
+Proof. exact size_reachable. Qed.
+Print Assumptions C18_size.
+
+(** ** Non-vacuity *)
+
+(** refinement / containment: section (10, 4); the writer accepts 1 of 3 bytes with its own
+    error, then everything; Write 3 bytes (short count + error, cursor 1), Write 5 bytes (3 land
+    at 11, truncated), Write again (refused at the end), seek back, WriteAt crossing the end,
+    Seek past the end, Size. *)
+Definition ex_calls : list call :=
+  [CWrite [1;2;3]; CWrite [4;5;6;7;8]; CWrite [9]; CSeek (-2) 2; CWriteAt [10;11;12] 2;
+   CSeek 7 1; CSize].
+Definition ex_script : list resp := [(1, 2)].
+
+Example C18_refinement_nonvacuous :
+  (0 <= 10 /\ 0 <= 4 /\ 10 + 4 <= 2^63 - 1) /\
+  Forall (fun r => 0 <= fst r) ex_script /\ Forall call_ok ex_calls /\
+  map (fun r => (rets r, ucalls r)) (run (NewSectionWriter 10 4) ex_script ex_calls) =
+    [ ([1; 2], [(10, [1;2;3])]);
+      ([3; 1], [(11, [4;5;6])]);
+      ([0; 1], []);
+      ([2; 0], []);
+      ([2; 1], [(12, [10;11])]);
+      ([9; 0], []);
+      ([4], []) ] /\
+  spec_section 10 4 ex_script (map to_acall ex_calls) =
+    map (fun r => (rets r, ucalls r)) (run (NewSectionWriter 10 4) ex_script ex_calls).
+Proof.
+  split; [lia|]. split; [repeat first [apply Forall_cons | apply Forall_nil]; cbn [fst]; lia|]. split.
+  - unfold ex_calls. repeat first [apply Forall_cons | apply Forall_nil]; cbn [call_ok]; try exact I; lia.
+  - split; vm_compute; reflexivity.
+Qed.
+
+(** the reachable-state theorems: the state after the first two calls above is reachable, its
+    cursor is at the section end (the refusing branch); after the first call only it is
+    strictly inside (the writing branch) *)
+Example C18_reachable_nonvacuous :
+  reachable 10 4 (mkSW 10 11 14) /\ reachable 10 4 (mkSW 10 14 14) /\ reachable 10 4 (mkSW 10 19 14) /\
+  fst (fst (Write (mkSW 10 11 14) [(2, 0)] [4;5;6;7;8])) = mkSW 10 13 14 /\
+  snd (Write (mkSW 10 11 14) [(2, 0)] [4;5;6;7;8]) = mkOut [2; 1] [(11, [4;5;6])] /\
+  snd (Write (mkSW 10 14 14) [] [9]) = mkOut [0; 1] [] /\
+  snd (WriteAt (mkSW 10 19 14) [(5, 7)] [1;2;3] 3) = mkOut [1; 7] [(13, [1])] /\
+  Size (mkSW 10 19 14) = 4.
+Proof.
+  split; [|split; [|split]].
+  - exists ex_script, [CWrite [1;2;3]]. (split; [|split; [|reflexivity]]);
+      repeat first [apply Forall_cons | apply Forall_nil]; cbn [fst call_ok]; try exact I; lia.
+  - exists ex_script, [CWrite [1;2;3]; CWrite [4;5;6;7;8]]. (split; [|split; [|reflexivity]]);
+      repeat first [apply Forall_cons | apply Forall_nil]; cbn [fst call_ok]; try exact I; lia.
+  - apply inv_reachable; unfold sec_ok, inv; cbn [base off limit]; lia.
+  - vm_compute. repeat split; reflexivity.
+Qed.
+
+(** Seek: all four cases occur; the wrap case is AtToWriter(w, 100).Seek(1, io.SeekEnd) *)
+Example C18_seek_nonvacuous :
+  reachable 100 (2^63 - 1 - 100) (AtToWriter 100) /\
+  Seek (AtToWriter 100) 1 2 = (AtToWriter 100, mkOut [0; E_offset] []) /\
+  Seek (AtToWriter 100) 0 2 = (mkSW 100 (2^63 - 1) (2^63 - 1), mkOut [2^63 - 1 - 100; E_nil] []) /\
+  Seek (AtToWriter 100) (-1) 0 = (AtToWriter 100, mkOut [0; E_offset] []) /\
+  Seek (AtToWriter 100) 5 7 = (AtToWriter 100, mkOut [0; E_whence] []) /\
+  Seek (mkSW 10 11 14) (2^63 - 12) 1 = (mkSW 10 (2^63 - 1) 14, mkOut [2^63 - 11; E_nil] []) /\
+  Seek (mkSW 10 11 14) (2^63 - 11) 1 = (mkSW 10 11 14, mkOut [0; E_offset] []).
+Proof.
+  split.
+  - rewrite AtToWriter_section by lia. apply reachable_new.
+  - vm_compute. repeat split; reflexivity.
+Qed.
